@@ -20,7 +20,7 @@ from deal.linter._extractors import get_value
 CATS = {'raises': 'raises', 'safe': 'safe', 'pure': 'pure', 'has': 'has'}
 
 
-def exc_str(e): return e if isinstance(e, str) else e.__name__
+def exc_str(e): return e if isinstance(e, str) else (getattr(e, '__name__', None) or repr(e))
 
 
 def canon(m):
